@@ -13,6 +13,17 @@ Step == ~st.done /\ st' = ScanStep(s, st) /\ s' = s
 Next == Step \/ (st.done /\ UNCHANGED vars)
 Spec == Init /\ [][Next]_vars /\ WF_vars(Step)
 
+\* named deviation (what the pinned tree did, NOT part of Spec): the comment loop's predicate stays true at end of
+\* input, so a comment that no newline closes never lets the scan end. LexerDev.cfg must find the counterexample
+\* of Terminates (a behaviour that stays at the same position forever).
+HasNewlineAfter(p) == \E q \in (p + 1)..Len(s) : s[q] = 10
+DevScanStep == LET p == RunEnd(s, st.pos, IsSpaceC) IN
+               IF ~st.meta /\ ~st.sym /\ At(s, p) = 59 /\ ~HasNewlineAfter(p)
+               THEN st                              \* the discard loop never returns: no step changes anything any more
+               ELSE ScanStep(s, st)
+DevStep == ~st.done /\ st' = DevScanStep /\ s' = s
+DevSpec == Init /\ [][DevStep \/ (st.done /\ UNCHANGED vars)]_vars /\ WF_vars(DevStep)
+
 RECURSIVE SumLen(_)
 SumLen(toks) == IF toks = <<>> THEN 0 ELSE Len(Head(toks).v) + SumLen(Tail(toks))
 LastOf(toks, types) == LET S == {i \in 1..Len(toks) : toks[i].t \in types} IN IF S = {} THEN 0 ELSE CHOOSE i \in S : \A j \in S : j <= i
